@@ -1,4 +1,5 @@
 import Hifi.Lemmas.EpochOrd
+import Hifi.Lemmas.Calendar
 /-
   C16  Epoch weekday is the civil weekday of its date; weekday arithmetic is mod 7.
   Weekdays are 0 = Monday … 6 = Sunday (the `u8` encoding of `Weekday`).
@@ -393,5 +394,77 @@ theorem weekday_utc_of_converted (d : Dur) (a : TS) (hd : d.Canon) (ha : a.isUni
 -- non-vacuity: the last nanosecond of Saturday 2023-05-06 TAI (the witness of repaired defect D17) is a Saturday
 example : (Dur.mk 1 736646399999999999).Canon ∧ weekdayOfDur ⟨1, 736646399999999999⟩ = 5 := by
   unfold Dur.Canon; simp only [NPC_eq]; decide
+
+end Hifi.C16
+
+/-! ### `weekday_in_time_scale` after fix 151cc8f: the weekday of the calendar date in the target scale -/
+
+namespace Hifi.C16
+open Hifi Hifi.Spec
+
+/-- the calendar offsets of the nine scales, as values (pinned in C08 `gregOff_pinned` to the reference dates of the
+    specification calendar) -/
+theorem gregOff_canon_val (ts : TS) :
+    (Cal.gregorianEpochOffset ts).Canon ∧ 0 ≤ (Cal.gregorianEpochOffset ts).val ∧
+    (Cal.gregorianEpochOffset ts).val ≤ 3345062400000000000 := by
+  have h := Cal.gregOff_val ts
+  have r := Cal.refOffset_range ts
+  exact ⟨h.1, by rw [h.2]; exact r.1, by rw [h.2]; exact r.2⟩
+
+/-- the weekday the code reports for a re-expressed count `x` in scale `ts` is the weekday of the CIVIL day count
+    (count + the scale's reference date-time, whole days since Monday 1900-01-01), whenever no bound is hit -/
+theorem weekday_civil_of_count (x : Dur) (ts : TS) (hx : x.Canon)
+    (hr : DMIN ≤ x.val + (Cal.gregorianEpochOffset ts).val ∧ x.val + (Cal.gregorianEpochOffset ts).val ≤ DMAX) :
+    weekdayOfDur (Dur.add x (Cal.gregorianEpochOffset ts))
+      = ((x.val + (Cal.gregorianEpochOffset ts).val) / 86400000000000) % 7 := by
+  have hg := (gregOff_canon_val ts).1
+  have ha := add_spec x _ hx hg
+  rw [weekday_of_duration _ ha.1, ha.2]
+  unfold DMIN DMAX at hr; simp only [NPCs_eq] at hr
+  rw [clampD_mid (by omega) (by omega)]
+
+/-- for TAI, UTC and TT the calendar offset is zero: the civil weekday IS the weekday of the count, so the
+    theorems above (stated with `weekdayIn`) are about the repaired code as well -/
+theorem weekday_civil_eq_count (e : Ep) (ts : TS) (h : ts = .TAI ∨ ts = .UTC ∨ ts = .TT)
+    (hc : ∀ x, e.to ts = some x → x.dur.Canon) :
+    e.weekdayInCivil ts = e.weekdayIn ts := by
+  unfold Ep.weekdayInCivil Ep.weekdayIn
+  cases hto : e.to ts with
+  | none => rfl
+  | some x =>
+    have hx := hc x hto
+    have h0 : Cal.gregorianEpochOffset ts = ⟨0, 0⟩ := by rcases h with h | h | h <;> subst h <;> decide
+    have hz : (⟨0, 0⟩ : Dur).Canon := by unfold Dur.Canon; simp only [NPC_eq]; omega
+    have ha := add_spec x.dur ⟨0, 0⟩ hx hz
+    have hv : (Dur.add x.dur ⟨0, 0⟩).val = x.dur.val := by
+      rw [ha.2]
+      have hr := canon_range x.dur hx
+      unfold DMIN DMAX at hr; simp only [NPCs_eq] at hr
+      have : (⟨0, 0⟩ : Dur).val = 0 := by unfold Dur.val valP; simp
+      rw [this, Int.add_zero, clampD_mid (by omega) (by omega)]
+    have : Dur.add x.dur ⟨0, 0⟩ = x.dur := canon_unique _ _ ha.1 hx hv
+    simp only [h0, this]
+
+/-- every non-dynamical epoch, every uniform target scale (GNSS scales included, whose reference days are NOT
+    Mondays — Sunday 1980-01-06 for GPST): `weekday_in_time_scale` is the weekday of the civil day count of the
+    instant in that scale -/
+theorem weekday_in_uniform_civil (d : Dur) (a b : TS) (hd : d.Canon) (ha : a.nonDyn = true) (hb : b.isUniform = true)
+    (hs : Safe d.val) (hs6 : DMIN + 6 * NPCs ≤ d.val ∧ d.val ≤ DMAX - 6 * NPCs) :
+    (Ep.mk d a).weekdayInCivil b =
+      some (((instV a d.val - off b + (Cal.gregorianEpochOffset b).val) / 86400000000000) % 7) := by
+  obtain ⟨r, r1, r2, r3⟩ := to_uniform_inst d a b hd ha hb hs
+  unfold Ep.weekdayInCivil; rw [r1]; simp only
+  have hg := gregOff_canon_val b
+  have hob := off_bounds b
+  have hrange : DMIN ≤ r.val + (Cal.gregorianEpochOffset b).val ∧ r.val + (Cal.gregorianEpochOffset b).val ≤ DMAX := by
+    have hinst := instV_bounds a d.val
+    unfold Safe at hs
+    rw [r3]
+    unfold DMIN DMAX at *; simp only [NPCs_eq] at *
+    omega
+  rw [weekday_civil_of_count r b r2 hrange, r3]
+
+/-- the GPST reference epoch, 1980-01-06, is a Sunday (6), not a Monday: decided on the model -/
+example : (Ep.mk ⟨0, 0⟩ .GPST).weekdayInCivil .GPST = some 6 ∧ (Ep.mk ⟨0, 0⟩ .GPST).weekdayIn .GPST = some 0 := by decide
 
 end Hifi.C16
